@@ -257,9 +257,19 @@ class C17(PropBase):
             n = rng.range(0, 12) if rng.chance(3, 4) else rng.range(10, 60)
             return b"".join(rng.choice(atoms) for _ in range(n))
 
+        hexd = "0123456789abcdefABCDEF"
+
+        def rid():
+            # a random debug id text DebugId::from_breakpad accepts: 8 (PDB 2.0) or 32 digits + an appendix of 1..8 digits,
+            # any case, leading zeros allowed (the model parses it to a value and renders it like BreakpadFormat)
+            k = 8 if rng.chance(1, 2) else 32
+            return "".join(rng.choice(hexd) for _ in range(k + rng.range(1, 8)))
+
         for _ in range(nrand):
             cf, df = rstr(), rstr()
             did, cid = pick_ids()
+            if did != "N" and rng.chance(1, 4):
+                did = hx(rid())
             if rng.chance(1, 6):
                 cid = hx(rstr())
             cases.append("%s %s %s %s" % (hx(cf), hx(df) if rng.chance(19, 20) else "N", did, cid))
